@@ -23,6 +23,8 @@ def main():
     print("native ok", round(time.time() - t0, 1))
     env = boot.child_env()
     r = subprocess.run([boot.PYTHON, "-m", "vf.warmup"], env=env, cwd=boot.VERIF)
+    if r.returncode == 0:
+        open(os.path.join(boot.numba_cache_dir(), "WARMED"), "w").write("ok\n")
     print("warm-up rc=%s" % r.returncode, round(time.time() - t0, 1))
     return 0
 
